@@ -333,6 +333,18 @@ class C17(Prop):
             c = self.gen_case(rng.fork("synth%d" % i), (pth, open(pth, "rb").read(), kind), True)
             c.update({"mutation": "synthetic", "what": [name], "shifts": [3], "layout": None})
             cases.append(c)
+        # systematic: every header field that announces how many entries a table has := more than the file holds (and 0);
+        # the published counters must still equal the published collections.  Light cases: no probes, one scan pair.
+        n_sweep = 0
+        for g, l in sorted(groups.items()):
+            sel = sorted(l, key=lambda a: (len(a[1]), a[0]))
+            for a in (sel if g == "dotnet" or n > 1000 else sel[:4]):
+                for what, edit in mg.count_field_sweep(a[1], a[2]):
+                    cases.append({"asset": a[0], "kind": a[2], "mutation": "count-field", "what": [what], "edits": [edit],
+                                  "process_memory": False, "layout": None, "modules": FILE_MODULES, "probes": [], "keep": 2,
+                                  "keep_dict": 8, "keep_bytes": 8, "fn_args": [], "shifts": [], "user_data": {}})
+                    n_sweep += 1
+        n += n_sweep
         i = 0
         while len(cases) < n:
             r = rng.fork("m%d" % i)
@@ -546,7 +558,7 @@ class C17(Prop):
             return None
         published = any(len(d.get("o", [])) > 1 for d in out["dumps"].values())
         defined = any(po.get("logs") for po in out["probes"])
-        if published and defined:
+        if published and (defined or not case["probes"]):
             return json.dumps([case["asset"], case["edits"], case["process_memory"], case["layout"]], sort_keys=True)
         return None
 
